@@ -80,7 +80,11 @@ func c04Step(t *rapid.T) kit.Argv {
 	case 12:
 		a := []string{cn("HRANDFIELD"), k}
 		if rapid.Bool().Draw(t, "cnt") {
-			a = append(a, pick(t, "c", "0", "1", "-1", "2", "-2", "3", "-5", "7", "10", "-20", "400", "-400", "2147483647", "2147483648", "4294967296", "9223372036854775807"))
+			cnt := pick(t, "c", "0", "1", "-1", "2", "-2", "3", "-5", "7", "10", "-20", "400", "-400")
+			if rapid.IntRange(0, 3).Draw(t, "hugecnt") == 0 {
+				cnt = pick(t, "hc", "2147483647", "2147483648", "4294967296", "9223372036854775807")
+			}
+			a = append(a, cnt)
 			if rapid.Bool().Draw(t, "wv") {
 				a = append(a, cn("WITHVALUES"))
 			}
